@@ -29,6 +29,9 @@ type c19Params struct {
 	// had been written: the survivors hold, for some partitions, the primary role and the only
 	// (backup) copy at the same time
 	AfterLeave bool
+	// Populated: the initial state holds every key of both DMaps (the interesting interference
+	// needs both copies to exist; from there three events reach expire ; tick ; evict)
+	Populated bool
 }
 
 type c19Ent struct {
@@ -78,6 +81,15 @@ func c19New(p *c19Params) *c19Sys {
 				panic(err)
 			}
 			s.KV = append(s.KV, kv)
+		}
+	}
+	if p.Populated {
+		for d := range p.DMaps {
+			for k := range p.Keys[d] {
+				if fs := s.Apply(clustermc.Ev{K: "put", A: d, B: k}); len(fs) > 0 {
+					panic(fmt.Sprintf("c19: initial put: %v", fs))
+				}
+			}
 		}
 	}
 	if p.Entry == "CC" {
@@ -371,6 +383,17 @@ func (s *c19Sys) Check() []clustermc.Fail {
 	return fs
 }
 
+// c19KeyPair picks, on the two-member cluster of the populated configurations, one key whose
+// partition has the same primary owner in both DMaps and one key for which the owners differ.
+func c19KeyPair(names []string) (same, diff string) {
+	sched.ResetClock()
+	cl := simcluster.New(simcluster.Opts{N: 2, Replicas: 2, WriteQ: 1, ReadQ: 1, Partitions: 3})
+	view := cl.Live()[0]
+	same = cl.FindKey("s", func(k string) bool { return cl.Owner(view, names[0], k) == cl.Owner(view, names[1], k) })
+	diff = cl.FindKey("t", func(k string) bool { return cl.Owner(view, names[0], k) != cl.Owner(view, names[1], k) })
+	return
+}
+
 func c19Specs(tier string) []*clustermc.Spec {
 	quick := tier != "thorough"
 	type cf struct {
@@ -396,6 +419,13 @@ func c19Specs(tier string) []*clustermc.Spec {
 		depth = 4
 		cfs = append(cfs, cf{3, 2, "CC", grid[0], keysFor["ab"]}, cf{3, 2, "EN", grid[1], keysFor["x"]})
 	}
+	// populated initial states (n >= 100 marks the configuration). The third name pair is what a
+	// character-set trim of the internal fragment name "dmap.<name>" makes of a name ("data" -> "ta");
+	// its two keys are chosen so that the copies of both DMaps share their owners for one key and do
+	// not for the other.
+	same, diff := c19KeyPair([]string{"data", "ta"})
+	cfs = append(cfs, cf{102, 2, "EO", grid[0], keysFor["ab"]}, cf{102, 2, "CC", grid[1], keysFor["x"]},
+		cf{102, 2, "EN", []string{"data", "ta"}, [][]string{{same, diff}, {same, diff}}})
 	var out []*clustermc.Spec
 	for _, c := range cfs {
 		depth := depth
@@ -406,10 +436,17 @@ func c19Specs(tier string) []*clustermc.Spec {
 		if after {
 			c.n = -c.n
 		}
-		p := &c19Params{Name: fmt.Sprintf("dmaps=%q N=%d R=%d entry=%s", c.names, c.n, c.r, c.entry), Entry: c.entry, DMaps: c.names, Keys: c.keys, Depth: depth, AfterLeave: after,
+		populated := c.n >= 100
+		if populated {
+			c.n -= 100
+		}
+		p := &c19Params{Name: fmt.Sprintf("dmaps=%q N=%d R=%d entry=%s", c.names, c.n, c.r, c.entry), Entry: c.entry, DMaps: c.names, Keys: c.keys, Depth: depth, AfterLeave: after, Populated: populated,
 			Opts: simcluster.Opts{N: c.n, Replicas: c.r, WriteQ: 1, ReadQ: 1, Partitions: 3}}
 		if after {
 			p.Name += " after-a-leave"
+		}
+		if populated {
+			p.Name += " populated"
 		}
 		var alpha []clustermc.Ev
 		for d := range c.names {
